@@ -648,19 +648,26 @@ where
                         let _open_files_guard = RLIMIT_OPEN_FILES.clone().access_owned();
                         #[cfg(fclones_verif)]
                         crate::verif::jitter("rehash.task");
-                        let old_hash = fg[0].file_hash.clone();
-                        if let Some(hash) = hash_fn((&mut fg[0].file_info, old_hash)) {
-                            #[cfg(fclones_verif)]
-                            crate::verif::hash_done(&fg[0].file_info.path.to_escaped_string());
-                            // the hash function may have updated the length (transform)
-                            let len = fg[0].file_info.len;
-                            for mut f in fg {
-                                f.file_info.len = len;
-                                f.file_hash = hash.clone();
+                        // If one path of the file cannot be read (e.g. it vanished or its
+                        // directory is inaccessible), only that path is dropped and the next
+                        // hard link to the same file is tried.
+                        while !fg.is_empty() {
+                            let old_hash = fg[0].file_hash.clone();
+                            if let Some(hash) = hash_fn((&mut fg[0].file_info, old_hash)) {
                                 #[cfg(fclones_verif)]
-                                crate::verif::jitter("rehash.send");
-                                tx.send(f).unwrap();
+                                crate::verif::hash_done(&fg[0].file_info.path.to_escaped_string());
+                                // the hash function may have updated the length (transform)
+                                let len = fg[0].file_info.len;
+                                for mut f in fg {
+                                    f.file_info.len = len;
+                                    f.file_hash = hash.clone();
+                                    #[cfg(fclones_verif)]
+                                    crate::verif::jitter("rehash.send");
+                                    tx.send(f).unwrap();
+                                }
+                                break;
                             }
+                            fg.remove(0);
                         }
                         // This forces moving the guard into this task and be released when
                         // the task is done
